@@ -306,7 +306,9 @@ def check(repo: Repo, run: Run) -> None:
     )
     ct = repo.mod("celtypes")
     ev = repo.mod("evaluation")
-    ts = class_methods(ct.cls("TimestampType"))
+    from ..core.model import class_methods_n
+
+    ts = class_methods_n(ct.cls("TimestampType"))  # accessors may share a private helper for the zone conversion
     # A0 -----------------------------------------------------------------
     bf = matrix.base_functions(repo)
     for name in list(ACCESSORS) + ["getDayOfYear"]:
@@ -418,7 +420,7 @@ def check(repo: Repo, run: Run) -> None:
     extra = {u: v for u, v in scale.items() if u not in UNIT_TABLE}
     okx = all(u == "d" and v == 86400.0 for u, v in extra.items())
     run.ob("C11.D1", "DurationType.scale|extra", okx, f"additional units {extra} (d = 86400 s is a recorded extension)", ct.loc(dcls))
-    dn = class_methods(dcls).get("__new__")
+    dn = class_methods_n(dcls).get("__new__")
     s = ast.unparse(dn)
     run.shape("C11.D1", "DurationType.__new__|units-from-table", "cls.scale.keys()" in s and "map(re.escape, valid_units)" in s and "key=len, reverse=True" in s,
            "the units alternation is built from the table's keys, longest first", ct.loc(dn))
@@ -442,7 +444,7 @@ def check(repo: Repo, run: Run) -> None:
     signs = "seconds.startswith('+')" in s and "seconds.startswith('-')" in s and "sign = -1" in s and "sign * fsum(" in s
     run.shape("C11.D1", "DurationType.__new__|sign", signs, "an optional sign applies to the whole sum", ct.loc(dn))
     # D2 -----------------------------------------------------------------
-    dm = class_methods(dcls)
+    dm = class_methods_n(dcls)
     for name, factor in (("getHours", "self.total_seconds() / 60 / 60"), ("getMinutes", "self.total_seconds() / 60"), ("getSeconds", "self.total_seconds()"), ("getMilliseconds", "self.total_seconds() * 1000")):
         fn = dm.get(name)
         if fn is None:
